@@ -83,11 +83,49 @@ def loc_prov(fx, sym_or_render, depth=0):
     return out
 
 
+REPLAY_OWN_LOCATION = {
+    "<de::YamlDeserializer as serde::Deserializer>::deserialize_map::MA::deserialize_recorded_key": "a recorded key is replayed where it was written: its own location is its use-site",
+    "<de::YamlDeserializer as serde::Deserializer>::deserialize_enum": "the captured payload of a variant is replayed in place",
+    "<de::YamlDeserializer as serde::Deserializer>::deserialize_enum::VA::bare_variant_payload": "synthetic payload of a bare variant name",
+}
+
+
+def rule_replay_reference_threaded(ctx, fx, config, prop="C16"):
+    """A replay source over captured events answers `reference_location()` with the events' own (definition-site) positions unless
+    it is given the use-site.  Every function that *has* a use-site — a `Location` parameter named `…reference…` — and builds a
+    replay source builds it with that parameter; sites that build one without a reference are a reviewed table of replays in
+    place.  (The nested-merge branch of the collector asks the source for the use-site of an inner `<<`.)"""
+    n = 0
+    for f in sorted(fx.fns.values(), key=lambda g: g.npath):
+        for b, t in f.calls():
+            c = fx.callee(t)
+            if "de::ReplayEvents" not in c or not (c.endswith("::new") or c.endswith("::with_reference")):
+                continue
+            n += 1
+            ctx.saw(f)
+            refs = [f.local_name(i) for i in range(1, f.nargs + 1) if "Location" in f.local_ty(i) and "reference" in (f.local_name(i) or "")]
+            if c.endswith("::with_reference"):
+                with f.deep():
+                    a = f.sym_operand(t["args"][1])
+                if refs:
+                    ok = a[0] == "arg" and a[2] in refs
+                    ctx.check(ok, "USE-SITE", "%s:USE-SITE:replay-built-with-use-site:%s" % (prop, f.name), "the replay source is given the function's use-site parameter (%s)" % refs,
+                              "%s builds its replay source with `%s` instead of its use-site parameter %s" % (f.name, render(a)[:60], refs), config, ctx.where(f, b))
+                else:
+                    ctx.ok("USE-SITE", "%s:USE-SITE:replay-built-with-use-site:%s" % (prop, f.name), "the replay source is given a recorded use-site (%s)" % render(a)[:60], config, ctx.where(f, b))
+            else:
+                ok = not refs and f.npath in REPLAY_OWN_LOCATION
+                ctx.check(ok, "USE-SITE", "%s:USE-SITE:replay-built-with-use-site:%s" % (prop, f.name), "replay in place (%s)" % REPLAY_OWN_LOCATION.get(f.npath, ""),
+                          "%s builds a replay source without a use-site%s: `reference_location()` of that source answers with definition-site positions, so the use-site of a value that comes from a nested merge inside it is the anchored mapping's own position" % (f.name, (" although it receives one (%s)" % refs) if refs else " and is not in the reviewed table of in-place replays"), config, ctx.where(f, b))
+    ctx.floor("USE-SITE.replay-constructions", n, 6, config)
+
+
 def run(ctx):
     for config in ctx.configs:
         fx = ctx.facts(config)
         rule_use_site_sources(ctx, fx, config)
         rule_locate_once(ctx, fx, config)
+        rule_replay_reference_threaded(ctx, fx, config)
         a = fx.fn("location::location_from_span")
         b_ = fx.fn("de_error::Error::from_scan_error")
         ra = check_ctor(ctx, fx, config, a, "span.start")
